@@ -606,7 +606,7 @@ func TestEnum(t *testing.T) {
 	})
 }
 
-func TestReplay(t *testing.T) { core.Replay(t, dictCheck, augCheck, inlineCheck, subsetCheck, bigvalCheck, bigvalFixedCheck, augSignedCheck, nestedCheck) }
+func TestReplay(t *testing.T) { core.Replay(t, dictCheck, augCheck, inlineCheck, subsetCheck, bigvalCheck, bigvalFixedCheck, augSignedCheck, nestedCheck, blockDescrCheck) }
 
 func bitsFromString(s string) ref.Bits {
 	b := make(ref.Bits, len(s))
